@@ -36,7 +36,7 @@ func skipInitPkg(path string) bool {
 		return !stdInitAllow[path]
 	}
 	if strings.Contains(path, "pingcap") {
-		return true
+		return os.Getenv("GOSYM_PINGCAP_INIT") == ""
 	}
 	return false
 }
